@@ -1,2 +1,34 @@
-(** Theorems for C15: filled in below as the proofs land. *)
-From JL Require Import Base.Json.
+(** * C15: merge flattens exactly one level; in is substring / deep-membership test.
+    Statements only; proofs are in Proofs/OpsBasic.v. *)
+From Coq Require Import List ZArith.
+From JL Require Import Base.Json Base.F64 Base.Monad Model.JsOp Model.Ops Spec.Specs Spec.OpSpecs Proofs.OpsBasic.
+Import ListNotations.
+
+Theorem C15_merge :
+  forall vs, op_merge vs = Ok (Arr (flat_map (fun v => match v with Arr l => l | _ => [v] end) vs)).
+Proof. exact op_merge_spec. Qed.
+Print Assumptions C15_merge.
+
+(** the result length is the sum of the array lengths plus the number of non-array operands *)
+Theorem C15_merge_length :
+  forall vs, length (merge_spec vs) =
+             fold_right (fun v n => match v with Arr l => length l + n | _ => S n end) 0 vs.
+Proof. exact merge_length. Qed.
+Print Assumptions C15_merge_length.
+
+(** in: substring containment for a string haystack (the needle must be a string), deep
+    membership for an array (numbers by numeric value whatever their spelling, objects as maps),
+    false for null, an error otherwise *)
+Theorem C15_in : forall a b, op_in [a; b] = in_spec a b.
+Proof. exact op_in_spec. Qed.
+Print Assumptions C15_in.
+
+Theorem C15_membership_equality : forall a b, deep_eq a b = json_eq a b.
+Proof. exact deep_eq_json_eq. Qed.
+Print Assumptions C15_membership_equality.
+
+Example C15_nonvacuous :
+  json_eq (Num (PosInt 1)) (Num (Float (f64_of_Z 1))) = true /\
+  json_eq (Num (PosInt 0)) (Num (Float (SpecFloat.S754_zero true))) = true /\
+  json_eq (Arr [Num (PosInt 1)]) (Arr [Num (PosInt 1); Num (PosInt 2)]) = false.
+Proof. vm_compute. repeat split. Qed.
